@@ -39,7 +39,9 @@ func (p *Parser) Parse(row string) (*Markdown, error) {
 	}
 
 	if strings.HasPrefix(row, sharp) {
+		p.mu.Lock()
 		p.isSharpRoot = true
+		p.mu.Unlock()
 
 		_, after, found := strings.Cut(row, sharp)
 		if !found {
